@@ -1,7 +1,7 @@
 from verif.core import Job
 
 UNITS = ["coap_net.c", "coap_session.c", "coap_pdu.c", "coap_option.c", "coap_encode.c", "coap_io.c", "coap_resource.c",
-         "coap_async.c", "coap_str.c", "coap_subscribe.c", "coap_block.c", "coap_cache.c", "coap_proxy.c", "coap_layers.c"]
+         "coap_async.c", "coap_str.c", "coap_subscribe.c", "coap_block.c", "coap_cache.c", "coap_proxy.c", "coap_layers.c", "coap_threadsafe.c"]
 EXTRA = ["common/env.c"]
 FS = ["--max-field-sensitivity-array-size", "300"]
 
@@ -30,18 +30,18 @@ def jobs():
                       desc="coap_calc_timeout in [ACK_TIMEOUT, ACK_TIMEOUT*ACK_RANDOM_FACTOR] for all r, integer parts 1..60 / 1..4, fractions .%03d/.%03d" % (af, rf),
                       bounds={"r": "0..255", "ack_timeout": "1..60 + .%03d" % af, "ack_random_factor": "1..4 + .%03d" % rf}))
     for qn in (0, 1, 2, 3):
-        js.append(Job("S4-insert-pop@q%d" % qn, "C06/c06.c", "c06_s4_insert_pop", UNITS, extra_src=EXTRA, defines=["QN=%d" % qn], unwind=7, tier="quick" if qn <= 2 else "thorough", timeout=1800,
+        js.append(Job("S4-insert-pop@q%d" % qn, "C06/c06.c", "c06_s4_insert_pop", UNITS, extra_src=EXTRA, defines=["QN=%d" % qn], unwind=18, tier="quick" if qn <= 2 else "thorough", timeout=1800,
                       group="S4", desc="insert then pop on a queue of %d nodes: deadlines preserved, ordered" % qn, bounds={"queue": qn}))
         if qn:
-            js.append(Job("S4-remove@q%d" % qn, "C06/c06.c", "c06_s4_remove", UNITS, extra_src=EXTRA, defines=["QN=%d" % qn], unwind=7, tier="quick" if qn <= 2 else "thorough", timeout=1800,
+            js.append(Job("S4-remove@q%d" % qn, "C06/c06.c", "c06_s4_remove", UNITS, extra_src=EXTRA, defines=["QN=%d" % qn], unwind=18, tier="quick" if qn <= 2 else "thorough", timeout=1800,
                           group="S4", desc="coap_remove_from_queue on %d nodes: first (session, mid) match only" % qn, bounds={"queue": qn}))
         js.append(Job("S3-timer-scan@q%d" % qn, "C06/c06.c", "c06_s3_timer_scan", UNITS, extra_src=EXTRA,
-                      defines=["QN=%d" % qn, "STUB_RETRANSMIT"], remove_bodies=["coap_retransmit"], unwind=7, group="S3", flags=FS, tier="quick" if qn <= 2 else "thorough", timeout=1800,
+                      defines=["QN=%d" % qn, "STUB_RETRANSMIT"], remove_bodies=["coap_retransmit"], unwind=18, group="S3", flags=FS, tier="quick" if qn <= 2 else "thorough", timeout=1800,
                       desc="timer scan over %d queued nodes: due nodes retransmitted once in order, wait <= earliest deadline" % qn,
                       bounds={"queue": qn}))
     for other in (0, 1):
         for gu in (0, 1):
             js.append(Job("S2-retransmit@other%d-%s" % (other, "giveup" if gu else "resend"), "C06/c06.c", "c06_s2_retransmit", UNITS,
-                          extra_src=EXTRA, defines=["OTHER=%d" % other] + (["WIT_GIVEUP"] if gu else []), unwind=7, group="S2", flags=FS,
+                          extra_src=EXTRA, defines=["OTHER=%d" % other] + (["WIT_GIVEUP"] if gu else []), unwind=18, group="S2", flags=FS,
                           timeout=900, desc="coap_retransmit one step (%d other queued message)" % other, bounds={"other_nodes": other}))
     return js
